@@ -76,6 +76,8 @@ def run_group(ctx, prop, lean=True, other_tiers=True):
             print('PROOF-DEGRADED {}: function not found in the tree ({})'.format(fname, e))
             continue
         used_assumed |= eng.used_assumed
+        for u in sorted(getattr(eng, 'uninterpreted_loops', ())):
+            ctx.assume('NOT INTERPRETED (declared out of scope by the contract, assumed to end normally and to assign only the declared locals): ' + u)
         mine = [ob for ob in obs if prop in clause_props(c, ob.kind, ob.name)
                 or ob.kind in ('inv-init', 'inv-pres', 'decreases')]
         if not obs:
